@@ -272,6 +272,47 @@ theorem tokens_enumerated (spans : List TSpan) (sp : TSpan) (k : Nat) :
       ↔ ∃ h : k < spans.length, tokInSpan sp spans[k] :=
   mem_zipIdx_filterMap spans (tokInSpan sp) k
 
+/-! ### from the text to the printed report: the position arithmetic meets the renderer's line loading -/
+
+/-- The (line, column) computed for a character names that character in the renderer's own reading of the file: both are
+    at least 1, line `line` is a line `__load_line` can load, and column `col` of the loaded line holds the character
+    (a tab shown as a blank) — so the first caret of a report stands over the first character of the reported node. -/
+theorem position_names_character (src : Str) (k : Nat) (hk : k < src.length) (hnl : src[k] ≠ '\n') :
+    1 ≤ (posOf src k).line ∧ 1 ≤ (posOf src k).col
+    ∧ ∃ line, loadLine src ((posOf src k).line - 1) = .ok line
+        ∧ line[((posOf src k).col - 1).toNat]? = some (if src[k] = '\t' then ' ' else src[k]) := by
+  obtain ⟨h1, hcol, raw, hraw, hc⟩ := posOf_char src k hk
+  refine ⟨h1, hcol, tabToSpace (dropNl raw), ?_, ?_⟩
+  · have := (pyIndex_nonneg (readlines src) ((posOf src k).line - 1) (by omega) raw).mpr hraw
+    simp [loadLine, this, bind, Except.bind, pure, Except.pure]
+  · have hmem : raw ∈ readlines src := List.mem_of_getElem? hraw
+    have hk' : src[k]? = some src[k] := List.getElem?_eq_getElem hk
+    rw [hk'] at hc
+    exact loaded_char src raw hmem _ _ hc hnl
+
+example : posOf ['a', '\n', '\t', 'b'] 2 = ⟨2, 1⟩ ∧ loadLine ['a', '\n', '\t', 'b'] (2 - 1) = .ok [' ', 'b'] := ⟨by decide, rfl⟩
+
+/-- End to end: for the tree that consumed the tokens `[lo, hi)` of a text (tokens non-empty and inside the text), the report
+    printed for its recorded span is never empty and points at that span — labelled with the line of its first token, quoting
+    that line of the file, carets from the first token's column on (`PointsAt`); no hypothesis about the file is left. -/
+theorem tree_quotation (fp src : Str) (toks : List OTok) (hin : tokensInText src toks = true)
+    (lo hi : Nat) (hlt : lo < hi) (hhi : hi ≤ toks.length) :
+    ∃ sp ls, spanOf (toks.map (tokSpan src)) lo hi = some sp
+      ∧ buildQuotation true fp src (.ok ⟨some sp.b.line, some sp.b.col, some sp.e.line, some sp.e.col⟩) = .ok ls
+      ∧ PointsAt fp src ⟨some sp.b.line, some sp.b.col, some sp.e.line, some sp.e.col⟩ ls := by
+  have h1 := tokensInText_get src toks hin lo (by omega)
+  have hk : (toks[lo]'(by omega)).s < src.length := by omega
+  obtain ⟨g1, g2, raw, hraw, _⟩ := posOf_char src _ hk
+  have hload : loadLine src ((posOf src (toks[lo]'(by omega)).s).line - 1) = .ok (tabToSpace (dropNl raw)) := by
+    have := (pyIndex_nonneg (readlines src) ((posOf src (toks[lo]'(by omega)).s).line - 1) (by omega) raw).mpr hraw
+    simp [loadLine, this, bind, Except.bind, pure, Except.pure]
+  obtain ⟨m, hm1, hm2⟩ := mark fp src _ (posOf src (toks[lo]'(by omega)).s).line (posOf src (toks[lo]'(by omega)).s).col
+    (posOf src (toks[hi - 1]'(by omega)).e).line (posOf src (toks[hi - 1]'(by omega)).e).col g1 g2 hload
+  exact ⟨⟨posOf src (toks[lo]'(by omega)).s, posOf src (toks[hi - 1]'(by omega)).e⟩, _, spanOf_tokSpan src toks lo hi hlt hhi, hm1,
+    _, _, _, _, _, m, rfl, g1, hload, rfl, hm2⟩
+
+example : tokensInText ['x', ' ', '=', ' ', '1', '\n'] [⟨0, 1⟩, ⟨2, 3⟩, ⟨4, 5⟩, ⟨5, 6⟩] = true := by decide
+
 /-- Spans and quotations survive the cache: for the tree restored by `EntryStored.save → load`, `Nodes.source_map` and the
     printed quotation agree with the fresh tree at every path (corollary of C15). -/
 theorem restore (t t' : LarkEntry) (h : storeLoad t = .ok t') :
